@@ -803,6 +803,15 @@ func ConstInt(v ssa.Value) (int64, bool) {
 	return i, ok
 }
 
+// ConstUint is ConstInt for constants that need the full unsigned 64-bit range.
+func ConstUint(v ssa.Value) (uint64, bool) {
+	c, ok := v.(*ssa.Const)
+	if !ok || c.Value == nil || c.Value.Kind() != constant.Int {
+		return 0, false
+	}
+	return constant.Uint64Val(c.Value)
+}
+
 // Unwrap strips conversions and ChangeType.
 func Unwrap(v ssa.Value) ssa.Value {
 	for {
